@@ -167,14 +167,14 @@ Definition is_ex (issue : N) : bool := negb (N.eqb issue 0).
 
 Inductive err :=
 | EOk | EInsufficient | ELessTime | ETooSmall | EMustStakeVote | EMustStakeUnstake
-| EExceed | EPayload | ETooMany | EInvalidCand | ENotSupported | EInvalidId | EPanic.
+| EExceed | EPayload | ETooMany | EInvalidCand | ENotSupported | EInvalidId | ETooFew | EPanic.
 
 Definition err_eqb (a b : err) : bool :=
   match a, b with
   | EOk, EOk | EInsufficient, EInsufficient | ELessTime, ELessTime | ETooSmall, ETooSmall
   | EMustStakeVote, EMustStakeVote | EMustStakeUnstake, EMustStakeUnstake | EExceed, EExceed
   | EPayload, EPayload | ETooMany, ETooMany | EInvalidCand, EInvalidCand
-  | ENotSupported, ENotSupported | EInvalidId, EInvalidId | EPanic, EPanic => true
+  | ENotSupported, ENotSupported | EInvalidId, EInvalidId | ETooFew, ETooFew | EPanic, EPanic => true
   | _, _ => false
   end.
 
@@ -531,6 +531,7 @@ Definition exec_tx (c : cfg) (no : Z) (d : durable) (m : memory) (t : tx) : res 
   | TVoteBP who cands => exec_vote c no d m who 0%N cands
   | TVoteDAO who oi vals =>
     if c_ver c <? 2 then (ENotSupported, d, m) else
+    if (match vals with [] => true | _ :: _ => false end) then (ETooFew, d, m) else   (* len(ci.Args) < 2 *)
     match oi with
     | None => (EInvalidId, d, m)
     | Some issue =>
